@@ -83,8 +83,8 @@ int main(int argc, char** argv) {
     if (argc < 2) { fprintf(stderr, "usage: oracle <program>\n"); return 2; }
     std::ifstream in(argv[1]);
     std::string line;
-    Side O, P;
-    Tree rootO = Tree::invalid(), rootP = Tree::invalid();
+    Side O, P, Rf;     // Rf: the plain tree with flatten()/optimized() steps skipped (reference semantics keep the remap nodes)
+    Tree rootO = Tree::invalid(), rootP = Tree::invalid(), rootR = Tree::invalid();
     std::shared_ptr<Deck> deck;
     std::unique_ptr<Evaluator> evO, evP;
     std::vector<Tape::Handle> stack;
@@ -116,8 +116,8 @@ int main(int argc, char** argv) {
     };
     auto ref = [&](float x, float y, float z) {
         RefEval re;
-        re.vars = &P.varByNode;
-        auto d = re.at(rootP, x, y, z);
+        re.vars = &Rf.varByNode;
+        auto d = re.at(rootR, x, y, z);
         // a NaN sub-expression anywhere: min/max/nanfill with a NaN operand have no defined gradient and their
         // value depends on operand order (which the optimiser chooses by address) -> no gradient bound
         if (re.sawNan) for (auto& dd : d.d) dd.e = INFINITY;
@@ -159,8 +159,8 @@ int main(int argc, char** argv) {
         if (w[0] == "case") {
             L.enabled = false;
             evO.reset(); evP.reset(); stack.clear(); stackId.clear(); deck.reset();
-            rootO = Tree::invalid(); rootP = Tree::invalid();
-            O = Side(); P = Side();
+            rootO = Tree::invalid(); rootP = Tree::invalid(); rootR = Tree::invalid();
+            O = Side(); P = Side(); Rf = Side();
             { std::lock_guard<std::mutex> g(L.mu); L.events.clear(); }
             std::cout << line << "\n";
         } else if (w[0] == "n") {
@@ -168,12 +168,17 @@ int main(int argc, char** argv) {
                 int id = atoi(w[1].c_str());
                 O.prog.nodes.emplace(id, wrapTree(O.prog.at(w[3])));
                 P.prog.nodes.emplace(id, P.prog.at(w[3]));
+                Rf.prog.nodes.emplace(id, Rf.prog.at(w[3]));
             } else {
                 O.prog.exec(w);
                 P.prog.exec(w);
+                if (w.size() >= 4 && (w[2] == "flat" || w[2] == "opt"))
+                    Rf.prog.nodes.emplace(atoi(w[1].c_str()), Rf.prog.at(w[3]));
+                else
+                    Rf.prog.exec(w);
             }
         } else if (w[0] == "varval") {
-            for (Side* s : {&O, &P}) {
+            for (Side* s : {&O, &P, &Rf}) {
                 const Tree& v = s->prog.at(w[1]);
                 s->varvals[v.id()] = unhex(w[2]);
                 s->varByNode[v.get()] = unhex(w[2]);
@@ -181,6 +186,7 @@ int main(int argc, char** argv) {
         } else if (w[0] == "root") {
             rootO = O.prog.at(w[1]);
             rootP = P.prog.at(w[1]);
+            rootR = Rf.prog.at(w[1]);
             deck = std::make_shared<Deck>(rootO);
             evO.reset(new Evaluator(deck, O.varvals));
             evP.reset(new Evaluator(rootP, P.varvals));
